@@ -13,15 +13,17 @@ use constriction::{CoderError, DefaultEncoderFrontendError, NanError};
 use std::cmp::Reverse;
 use std::collections::{BinaryHeap, VecDeque};
 
-/// Reference codewords (root-to-leaf bit strings) for integer-like weights given as u128.
-fn reference_codewords(weights: &[u128]) -> Vec<Vec<bool>> {
+/// Reference codewords (root-to-leaf bit strings): (weight, index) min-heap, new nodes
+/// numbered after the leaves; generic over the weight arithmetic so that inexact float sums
+/// (f32) are reproduced with the same rounding as the library's documented algorithm.
+fn reference_codewords<T: Ord + Clone + core::ops::Add<Output = T>>(weights: &[T]) -> Vec<Vec<bool>> {
     let n = weights.len();
     if n == 1 {
         return vec![vec![]];
     }
     // parent[i] = (parent index, bit)
     let mut parent: Vec<Option<(usize, bool)>> = vec![None; 2 * n - 1];
-    let mut heap: BinaryHeap<Reverse<(u128, usize)>> = weights.iter().enumerate().map(|(i, &w)| Reverse((w, i))).collect();
+    let mut heap: BinaryHeap<Reverse<(T, usize)>> = weights.iter().cloned().enumerate().map(|(i, w)| Reverse((w, i))).collect();
     let mut next = n;
     while heap.len() >= 2 {
         let Reverse((w0, i0)) = heap.pop().unwrap();
@@ -43,6 +45,86 @@ fn reference_codewords(weights: &[u128]) -> Vec<Vec<bool>> {
             bits
         })
         .collect()
+}
+
+#[derive(Clone, Copy, PartialEq, PartialOrd)]
+struct OrdF32(f32);
+impl Eq for OrdF32 {}
+#[allow(clippy::derive_ord_xor_partial_ord)]
+impl Ord for OrdF32 {
+    fn cmp(&self, o: &Self) -> std::cmp::Ordering {
+        self.0.partial_cmp(&o.0).expect("no NaN")
+    }
+}
+impl core::ops::Add for OrdF32 {
+    type Output = OrdF32;
+    fn add(self, o: OrdF32) -> OrdF32 {
+        OrdF32(self.0 + o.0)
+    }
+}
+
+/// f32 weights with inexact sums (decimal fractions, ties created or destroyed by rounding):
+/// mutual consistency of encoder and decoder trees, codeword equality with the reference run
+/// in f32 arithmetic, prefix-freeness and Kraft. (Optimality is only decidable exactly, so it
+/// is checked in the exact cases of `case_inner`.)
+fn case_f32(run: &mut Run, rng: &mut Rng) {
+    let n = rng.usize_in(1, if run.small { 10 } else { 120 });
+    let style = rng.below(4);
+    let weights: Vec<f32> = (0..n)
+        .map(|_| match style {
+            0 => (1 + rng.below(9)) as f32 * 0.1,
+            1 => (1 + rng.below(30)) as f32 * 0.01,
+            2 => (16_777_216.0f32) + (2 * rng.below(6)) as f32 + if rng.chance(1, 6) { -16_777_215.0 } else { 0.0 },
+            _ => rng.f64() as f32,
+        })
+        .collect();
+    for w in &weights {
+        run.h(w.to_bits() as u64);
+    }
+    run.count("weight_vectors", 1);
+    run.count("f32_weight_vectors", 1);
+    run.nontrivial();
+    let desc = format!("Huffman [f32, inexact sums] n={n} weights {:?}", if n <= 40 { weights.clone() } else { weights[..40].to_vec() });
+    run.note(|| desc.clone());
+    let enc = EncoderHuffmanTree::from_float_probabilities::<f32, _>(&weights).unwrap();
+    let dec = DecoderHuffmanTree::from_float_probabilities::<f32, _>(&weights).unwrap();
+    let reference = reference_codewords(&weights.iter().map(|&w| OrdF32(w)).collect::<Vec<_>>());
+    let mut codewords = Vec::with_capacity(n);
+    for s in 0..n {
+        let mut pre = Vec::new();
+        let mut suf = Vec::new();
+        enc.encode_symbol_prefix(s, |b| { pre.push(b); Ok::<(), core::convert::Infallible>(()) }).unwrap();
+        enc.encode_symbol_suffix(s, |b| { suf.push(b); Ok::<(), core::convert::Infallible>(()) }).unwrap();
+        suf.reverse();
+        if pre != suf {
+            run.violation("huffman", "C15/prefix-vs-suffix", format!("{desc} :: symbol {s}: prefix {:?} vs reversed suffix {:?}", pre, suf));
+            return;
+        }
+        match dec.decode_symbol(pre.iter().map(|&b| Ok::<bool, core::convert::Infallible>(b))) {
+            Ok(g) if g == s => {}
+            other => {
+                run.violation("huffman", "C15/decode", format!("{desc} :: the encoder tree's codeword {:?} of symbol {s} decodes to {other:?} with the decoder tree built from the same weights", pre));
+                return;
+            }
+        }
+        if pre != reference[s] {
+            run.violation("huffman", "C15/tie-break-or-shape", format!("{desc} :: symbol {s}: codeword {:?}, reference construction in f32 arithmetic gives {:?}", pre, reference[s]));
+            return;
+        }
+        codewords.push(pre);
+    }
+    if n >= 2 {
+        let lmax = codewords.iter().map(|c| c.len()).max().unwrap();
+        if lmax < 120 {
+            let kraft: u128 = codewords.iter().map(|c| 1u128 << (lmax - c.len())).sum();
+            if kraft != 1u128 << lmax {
+                run.violation("huffman", "C15/kraft", format!("{desc} :: Kraft sum {kraft} / 2^{lmax} != 1"));
+                return;
+            }
+        }
+    }
+    run.count("codewords_checked", n as u64);
+    run.describe(|| desc);
 }
 
 /// Optimal total weighted length by the two-queue method.
@@ -219,5 +301,9 @@ fn case_inner(run: &mut Run, rng: &mut Rng) {
 }
 
 pub fn case(run: &mut Run, rng: &mut Rng) {
-    case_inner(run, rng)
+    if rng.chance(1, 5) {
+        case_f32(run, rng)
+    } else {
+        case_inner(run, rng)
+    }
 }
